@@ -27,17 +27,27 @@ THEOREMS = [
     "landscape_stability_any_matching", "landscape_stability", "exact_landscape_stability", "exact_landscape_stability_model", "sup_norm_triangle",
     "landscape_stability_every_real_t", "sweep_stability_every_real_t",
     "sup_norm_bounds_every_real_t", "exact_landscape_stability_every_real_t", "exact_landscape_entry_stability",  # cross-property glue (Proofs/LandscapeGlue*.v, LandscapeStabP.v)
+    # triangle inequality (Minkowski) of the p-norm, Proofs/PNormMinkowski*.v
+    "depth_pow_is_RInt", "pointwise_sum_at_every_real_t", "pnorm_minkowski_depth", "pnorm_minkowski_add_depth",
+    "pnorm_minkowski", "pnorm_minkowski_difference", "pnorm_real_exists_unique", "pnorm_triangle_inequality",
+    "pnorm_triangle_inequality_difference", "pnorm_minkowski_model_add", "pnorm_minkowski_model_sub", "pnorm_triangle",
 ]
 RULE = ("seeded generator over classes {non-negative / non-positive / sign-crossing / flat / nearly-flat / "
         "axis-touching breakpoint lists given as int, float and numpy scalars; exact landscapes of diagrams, "
         "their sums, differences and linear combinations through + - * /; grid landscapes from values and from "
         "diagrams and their combinations; landscapes built from diagrams with compute=False whose first use is p_norm / sup_norm "
-        "(compared with the eagerly built twin and the spec); scales 2^-20..2^20; several depths; single-breakpoint depths} x "
+        "(compared with the eagerly built twin and the spec); scales 2^-20..2^20; several depths; single-breakpoint depths; "
+        "dtypes / containers / layouts of what the caller hands over: grid landscapes whose `values` array is int64 / int32 / int16 / "
+        "float32 / float64, C- or Fortran-ordered, a strided or negative-stride view or read-only, on grids whose nodes are not "
+        "integers (steps 1/2, 1/4, decimal steps below and above 1, grid ends as Python ints; a few with 49..129 nodes), alone, as "
+        "differences and in combinations with int and float coefficients and operands of mixed dtypes; exact and grid landscapes of "
+        "int64 / int32 diagrams (grid ends given or left to the constructor, also with compute=False); critical pairs given as "
+        "tuples or as one float / int ndarray per depth} x "
         "p in {1,2,3,4,5,7,10} and real p in {1.5, 2.5, pi}; a case is non-trivial when the call succeeds and "
         "the reported landscape has a sloped segment with non-zero integral; distinct = distinct JSON input")
 TRUSTED_BASE = [
     "Coq 8.16.1 kernel; vm_compute for the rational models (no native_compute)",
-    "Coquelicot (RInt) and the stdlib axioms of the classical reals for seg_closed_form_is_RInt; all other theorems are closed under the global context",
+    "Coquelicot (RInt) and the stdlib axioms of the classical reals for seg_closed_form_is_RInt, depth_pow_is_RInt, the every_real_t theorems and the Minkowski / triangle theorems (pnorm_minkowski*, pnorm_triangle*; proved by integration, also where stated over Q); the other theorems are closed under the global context",
     "coq-interval per-case certificates for real p (stdlib axioms of the classical reals, primitive-float specs)",
     "hand-written models Model/PNormM.v, Model/PNormRM.v of auxiliary.py:_p_norm, exact.py 381-400, approximate.py 315-370",
     "harness: generator, float->exact-rational printer, landscape construction through the public API",
@@ -47,6 +57,9 @@ ASSUMPTIONS = [
     "num_steps, values); correctness of the arithmetic that produced it is property C09",
     "binary64 rounding of the implementation is bounded by the 1e-9 relative tolerance, not proved",
     "np.linspace(start, stop, n)[i] = start + i (stop-start)/(n-1) up to rounding",
+    "single-precision CRITICAL PAIRS / diagrams are not generated: _p_norm then works in float32 (relative error ~1e-8, "
+    "outside the binary64 tolerance); float32 `values` arrays are generated (the grid, hence the pairs, is binary64), with "
+    "homogeneity factors restricted to powers of two because c*P is itself formed in single precision (C09)",
 ]
 RTOL = Fraction(1, 10 ** 9)
 COQ_DEPS = ["Corr/PNormCorr.vo", "Corr/PNormRCorr.vo"]
@@ -145,6 +158,9 @@ def _bars(rng, mode, n=None):
         if mode == "dyadic":
             b = rng.randint(0, 40) / 4.0
             d = b + rng.randint(1, 24) / 4.0
+        elif mode == "int":
+            b = rng.randint(0, 12)
+            d = b + rng.randint(1, 8)
         else:
             b = round(rng.uniform(0, 5), 1)
             d = round(b + rng.uniform(0.2, 5), 1)
@@ -177,6 +193,50 @@ def _approx_leaf(rng, grid=None):
     k = rng.randint(1, 3)
     vals = [[rng.choice([0.0, float(rng.randint(-3, 3)), round(rng.uniform(-2, 2), 2)]) for _ in range(n)] for _ in range(k)]
     return {"t": "vals", "start": start, "stop": stop, "n": n, "values": vals}
+
+
+INT_DTYPES = ["int64", "int32", "int16"]
+LAYOUTS = ["C", "F", "F", "strided", "readonly", "negstride"]
+
+
+def _frac_grid(rng, big=False):
+    """a grid whose nodes are (mostly) not integers: fractional ends and / or a step that is not 1"""
+    n = rng.choice([49, 65, 129]) if big else rng.choice([4, 5, 6, 6, 7, 9, 11, 12])
+    k = rng.randrange(4)
+    if k == 0:      # step exactly 1/2 or 1/4
+        h = rng.choice([0.5, 0.25])
+        start = rng.randint(-8, 4) * h
+        stop = start + (n - 1) * h
+    elif k == 1:    # decimal ends, step below 1
+        start = round(rng.uniform(-2, 2), 1)
+        stop = round(start + rng.uniform(0.4, 0.9) * (n - 1) * rng.choice([1, 0.1]), 2)
+    elif k == 2:    # integer ends, step (stop - start)/(n - 1) not an integer in general
+        start = float(rng.randint(-2, 1))
+        stop = float(rng.randint(3, 8))
+    else:           # step above 1, not an integer
+        start = rng.randint(-8, 4) / 4.0
+        stop = start + (n - 1) * rng.choice([1.5, 2.25, 1.1])
+    return start, stop, n
+
+
+def _dtype_leaf(rng, grid, dtype, layout=None):
+    """grid landscape from a `values` array of the given dtype (integer samples for the integer dtypes) and memory layout"""
+    start, stop, n = grid
+    k = rng.randint(2, 3) if layout == "F" else rng.randint(1, 3)
+    rows = []
+    for _ in range(k):
+        if dtype in INT_DTYPES:
+            row = [rng.randint(-3, 3) if rng.random() < 0.5 else rng.randint(0, 5) for _ in range(n)]
+        else:
+            row = [rng.choice([0.0, float(rng.randint(-3, 3)), round(rng.uniform(-2, 2), 2)]) for _ in range(n)]
+        if rng.random() < 0.6:          # landscape-like: zero at both ends
+            row[0] = row[-1] = 0 if dtype in INT_DTYPES else 0.0
+        rows.append(row)
+    r = {"t": "vals", "start": start, "stop": stop, "n": n, "values": rows, "dtype": dtype,
+         "layout": layout or rng.choice(LAYOUTS)}
+    if rng.random() < 0.5:
+        r["grid_int"] = True            # integral grid ends are passed as Python ints (start=0, stop=3)
+    return r
 
 
 def _scale_recipe(r, s):
@@ -241,10 +301,72 @@ def _case(rng, cls):
         bars = [[b, min(d, stop)] for b, d in _bars(rng, "decimal") if b + 0.5 < stop] or [[0.5, 3.0]]
         c["recipe"] = {"t": "adgm", "bars": bars, "start": start, "stop": stop, "n": n}
         c["lazy"] = "p_norm" if cls == "lazy_approx_pnorm" else "sup_norm"
+    elif cls in ("vals_dtype", "vals_dtype_big"):
+        # the user's `values` array is an integer / single-precision array (as in the docs and the test-suite:
+        # values=np.array([[0, 1, 2, 2, 1, 0]])), possibly Fortran-ordered, a strided view or read-only, on a
+        # grid whose nodes are not integers; alone, as a difference, or in a combination with int coefficients
+        big = cls == "vals_dtype_big"
+        grid = _frac_grid(rng, big)
+        dtype = rng.choice(INT_DTYPES + ["int64", "float32", "float64"])
+        if big:
+            c["p"] = rng.choice([1, 2, 3])
+        k = rng.choice(["leaf", "leaf", "diff", "lin"])
+        dt2 = lambda: dtype if dtype == "float32" else rng.choice([dtype, dtype, "float64", "int32"])   # operands of mixed dtypes
+        if k == "leaf":
+            c["recipe"] = _dtype_leaf(rng, grid, dtype)
+        elif k == "diff":
+            c["recipe"] = {"t": "lin", "terms": [[1.0, _dtype_leaf(rng, grid, dtype)], [-1.0, _dtype_leaf(rng, grid, dt2())]]}
+        else:
+            c["recipe"] = {"t": "lin", "terms": [[rng.choice([1.0, -1.0, 2, -3, 0.5, 0.3]), _dtype_leaf(rng, grid, dt2())]
+                                                 for _ in range(rng.randint(1, 3))]}
+        if dtype == "float32":
+            # c * P is formed in single precision: only factors that scale exactly; no second landscape
+            c["c"] = rng.choice([2.0, -1.0, 0.5, -4.0, 0.25])
+        else:
+            c["c"] = rng.choice([c["c"], 2, -3])
+            if not big:
+                c["other"] = _dtype_leaf(rng, grid, rng.choice([dtype, "float64"]))
+    elif cls in ("dgm_int", "adgm_int"):
+        # diagrams given as integer arrays (the docs' own example: np.array([[0, 3], [1, 4]]))
+        dtype = rng.choice(["int64", "int32"])
+        bars = _bars(rng, "int")
+        if cls == "dgm_int":
+            c["recipe"] = {"t": "dgm", "bars": bars, "dtype": dtype}
+            c["other"] = {"t": "dgm", "bars": _bars(rng, "int"), "dtype": dtype}
+        else:
+            n = rng.choice([5, 6, 9, 12, 17, 33])
+            c["recipe"] = {"t": "adgm", "bars": bars, "n": n, "dtype": dtype}
+            if rng.random() < 0.5:      # grid ends left to the constructor (taken from the diagram)
+                c["recipe"].update(start=None, stop=None)
+            else:
+                lo, hi = min(b for b, _ in bars), max(d for _, d in bars)
+                c["recipe"].update(start=lo - rng.choice([0, 1, 0.5]), stop=hi + rng.choice([0, 1, 0.5, 2.5]), grid_int=True)
+        if rng.random() < 0.3:
+            c["lazy"] = rng.choice(["p_norm", "sup_norm"])
+            c["other"] = None
+    elif cls == "cp_container":
+        # critical pairs handed over as tuples / one ndarray per depth instead of nested lists
+        base = rng.choice(["pos", "neg", "cross", "flat", "touch", "mixed"])
+        rep = rng.choice(["tuple", "arr", "arrint"])
+        mode = "int" if rep == "arrint" else rng.choice(["int", "dyadic", "float"])
+        cp = [_depth(rng, base, mode) for _ in range(rng.choice([1, 2, 3]))]
+        c["recipe"] = {"t": "cp", "cp": cp, "rep": rep}
+        if rng.random() < 0.5:
+            # a second summand only for functions that vanish at both ends (what a sum of the others means is C09's business)
+            for d in cp:
+                d[0][1] = d[-1][1] = 0 if mode == "int" else 0.0
+            c["other"] = _exact_leaf(rng)
     elif cls == "real_p":
         c["p"] = rng.choice(REAL_PS)
-        k = rng.choice(["cross", "mixed", "neg", "nearly_flat", "diff"])
-        if k == "nearly_flat":
+        k = rng.choice(["cross", "mixed", "neg", "nearly_flat", "diff", "vals_int"])
+        if k == "vals_int":
+            g = _frac_grid(rng)
+            c["recipe"] = _dtype_leaf(rng, (g[0], g[1] if g[2] <= 6 else g[0] + (g[1] - g[0]) * 5 / (g[2] - 1), min(g[2], 6)),
+                                      rng.choice(INT_DTYPES))
+            c["recipe"]["values"] = c["recipe"]["values"][:1]
+            if c["recipe"]["layout"] == "F":
+                c["recipe"]["layout"] = "C"
+        elif k == "nearly_flat":
             c["recipe"] = {"t": "cp", "cp": [_nearly_flat(rng)[:3]], "rep": "float"}
         elif k == "diff":
             c["recipe"] = {"t": "lin", "terms": [[1.0, {"t": "dgm", "bars": _bars(rng, "decimal", 2)}],
@@ -261,19 +383,26 @@ CLASSES = (["pos", "neg", "flat", "touch", "mixed", "single_point", "scaled", "d
            + ["cross", "nearly_flat", "sum", "diff", "lincomb"] * 4
            + ["approx_vals", "approx_dgm", "approx_diff", "approx_lin"] * 2
            + ["lazy_exact_pnorm", "lazy_exact_sup", "lazy_approx_pnorm", "lazy_approx_sup"] * 2)
+# dtypes / containers / memory layouts of what the caller hands over
+DTYPE_CLASSES = ["vals_dtype"] * 5 + ["dgm_int", "adgm_int", "cp_container"] * 2
 
 
 def generate(rng, tier):
     n = 380 if tier == "quick" else 9000
     n_real = 16 if tier == "quick" else 320
+    n_dt = 77 if tier == "quick" else 1800
+    n_big = 3 if tier == "quick" else 60
     cases = [_case(rng, CLASSES[i % len(CLASSES)]) for i in range(n)]
     cases += [_case(rng, "real_p") for _ in range(n_real)]
+    cases += [_case(rng, DTYPE_CLASSES[i % len(DTYPE_CLASSES)]) for i in range(n_dt)]
+    cases += [_case(rng, "vals_dtype_big") for _ in range(n_big)]
     return cases
 
 
 def search_generate(rng, n):
     return [_case(rng, rng.choice(["cross", "nearly_flat", "sum", "diff", "lincomb", "mixed", "approx_diff", "flat", "touch",
-                                  "lazy_exact_pnorm", "lazy_exact_sup", "lazy_approx_pnorm", "lazy_approx_sup"]))
+                                  "lazy_exact_pnorm", "lazy_exact_sup", "lazy_approx_pnorm", "lazy_approx_sup",
+                                  "vals_dtype", "vals_dtype", "dgm_int", "adgm_int", "cp_container"]))
             for _ in range(n)]
 
 
@@ -305,17 +434,38 @@ def _build(r, lazy=False):
     import numpy as np
     from persim.landscapes import PersLandscapeApprox, PersLandscapeExact
     t = r["t"]
+
+    def end(v):   # grid end: integral values as Python ints when the recipe asks for it
+        return int(v) if (v is not None and r.get("grid_int") and float(v) == int(v)) else v
+
     if t == "cp":
-        conv = {"int": (lambda v: int(v) if float(v) == int(v) else float(v)), "float": float, "np": np.float64}[r["rep"]]
+        rep = r["rep"]
+        if rep == "tuple":
+            return PersLandscapeExact(critical_pairs=[tuple((x, y) for x, y in d) for d in r["cp"]], hom_deg=0)
+        if rep in ("arr", "arrint"):
+            return PersLandscapeExact(critical_pairs=[np.array(d, dtype=np.int64 if rep == "arrint" else float) for d in r["cp"]],
+                                      hom_deg=0)
+        conv = {"int": (lambda v: int(v) if float(v) == int(v) else float(v)), "float": float, "np": np.float64}[rep]
         return PersLandscapeExact(critical_pairs=[[[conv(x), conv(y)] for x, y in d] for d in r["cp"]], hom_deg=0)
     if t == "dgm":
-        return PersLandscapeExact(dgms=[np.array(r["bars"], dtype=float)], hom_deg=0, compute=not lazy)
+        return PersLandscapeExact(dgms=[np.array(r["bars"], dtype=r.get("dtype", "float64"))], hom_deg=0, compute=not lazy)
     if t == "vals":
-        return PersLandscapeApprox(start=r["start"], stop=r["stop"], num_steps=r["n"],
-                                   values=np.array(r["values"], dtype=float), hom_deg=0)
+        a = np.array(r["values"], dtype=r.get("dtype", "float64"))
+        lay = r.get("layout", "C")
+        if lay == "F":
+            a = np.asfortranarray(a)
+        elif lay == "strided":          # every second row / column of a larger buffer
+            big = np.full((2 * a.shape[0], 2 * a.shape[1] + 1), 7, dtype=a.dtype)
+            big[::2, 1::2] = a
+            a = big[::2, 1::2]
+        elif lay == "negstride":
+            a = np.ascontiguousarray(a[:, ::-1])[:, ::-1]
+        elif lay == "readonly":
+            a.setflags(write=False)
+        return PersLandscapeApprox(start=end(r["start"]), stop=end(r["stop"]), num_steps=r["n"], values=a, hom_deg=0)
     if t == "adgm":
-        return PersLandscapeApprox(start=r["start"], stop=r["stop"], num_steps=r["n"],
-                                   dgms=[np.array(r["bars"], dtype=float)], hom_deg=0, compute=not lazy)
+        return PersLandscapeApprox(start=end(r["start"]), stop=end(r["stop"]), num_steps=r["n"],
+                                   dgms=[np.array(r["bars"], dtype=r.get("dtype", "float64"))], hom_deg=0, compute=not lazy)
     if t == "lin":
         acc = None
         for c, sub in r["terms"]:
@@ -641,5 +791,9 @@ def shrink_candidates(c):
     if r["t"] == "vals" and len(r["values"]) > 1:
         for k in range(len(r["values"])):
             d = dict(c); d["recipe"] = dict(r, values=r["values"][:k] + r["values"][k + 1:]); yield d
+    if r["t"] == "vals" and r.get("layout", "C") != "C":
+        d = dict(c); d["recipe"] = dict(r, layout="C"); yield d
+    if r.get("grid_int"):
+        d = dict(c); d["recipe"] = {k: v for k, v in r.items() if k != "grid_int"}; yield d
     if _is_int_p(c["p"]) and c["p"] > 2:
         d = dict(c); d["p"] = 2 if c["p"] % 2 == 0 else 1; yield d
